@@ -32,7 +32,7 @@ REQUIRED_PROBES = ()  # traversal_reversed is a coverage counter tied to a sourc
 
 
 def plan(tier):
-    return {"cases": 256 if tier == "quick" else 3200, "shards": 16,
+    return {"cases": 256 if tier == "quick" else 9600, "shards": 16,
             "shard_budget_s": 400 if tier == "quick" else 3300, "watchdog_s": 900 if tier == "quick" else 4500}
 
 
